@@ -185,13 +185,14 @@ def make_accessor(it, st, cls_name, da, record=None):
 
 def w_croo(w, cfg):
     n = cfg["n"]
+    dims = tuple(cfg.get("dims") or ("time",))
     it = C.new_interp(policy="exact")
     it.prune_mode = "off"
     st = State()
     vs = [z3.Int(f"v{i}") for i in range(n)]
     ts = [z3.Int(f"t{i}") for i in range(n)]
     assume = [z3.Or(v == 0, v == 1) for v in vs] + [z3.Distinct(*ts)] if n > 1 else [z3.Or(v == 0, v == 1) for v in vs]
-    da = X.StubDA(vs, ("time",), ts, dtype="int64")
+    da = X.StubDA(vs, dims, ts, dtype="int64")
     cls, inst = make_accessor(it, st, "PixelAlgorithms", da)
     res = it.call_function(st, cls.methods["croo"], [inst])
     w.res.encoded.update(it.encoded)
@@ -202,7 +203,7 @@ def w_croo(w, cfg):
     spec = z3.Sum([z3.If(z3.And(*[z3.Implies(ts[j] >= ts[i], vs[j] == 1) for j in range(n)]), 1, 0) for i in range(n)])
 
     def conc(m):
-        return {"kind": "croo", "values": [C.model_value(m, v) for v in vs], "times": [C.model_value(m, t) for t in ts]}
+        return {"kind": "croo", "values": [C.model_value(m, v) for v in vs], "times": [C.model_value(m, t) for t in ts], "dims": list(dims)}
     w.discharge("croo.value", assume, V.to_z3(got) == spec, lemmas=it.A.lemmas, concretize=conc, sample=True)
     w.discharge("croo.no_nan", assume, V.z_not(res.nan[0]), concretize=conc)
     for ob in it.obligations:
@@ -270,6 +271,10 @@ def configs(tier):
     cf.append({"kind": "induct", "nmax": 1000})
     for n in range(1, (6 if tier == "quick" else 8) + 1):
         cf.append({"kind": "croo", "n": n})
+        if n in (2, 3, 4):
+            # the time dimension is not the leading one (as the library's own apply_ufunc-based methods return their cubes)
+            cf.append({"kind": "croo", "n": n, "dims": ["y", "x", "time"]})
+            cf.append({"kind": "croo", "n": n, "dims": ["y", "time", "x"]})
     for n in (1, 2, 5):
         cf.append({"kind": "lroo_accessor", "n": n})
     return cf
@@ -313,7 +318,7 @@ def replay_candidate(chk, c):
     if k in ("lroo", "lroo_accessor"):
         r = chk.replayer.call("c18_lroo", data=inp["data"], accessor=(k == "lroo_accessor"))
     elif k == "croo":
-        r = chk.replayer.call("c18_croo", values=inp["values"], times=inp["times"])
+        r = chk.replayer.call("c18_croo", values=inp["values"], times=inp["times"], dims=inp.get("dims"))
     elif k == "lroo_dtype":
         r = chk.replayer.call("c18_lroo_dtype")
     else:
